@@ -5,7 +5,7 @@ from hypothesis import strategies as st
 from ..core import Clause, Violation, Discard
 from .. import gens, refmodel
 
-RULE = ("Cases: order-one signals (all families, 6..256 samples) x stop rule x step x interpolator x pad width 1..5, "
+RULE = ("Cases: order-one signals (all families, 6..256 samples) x stop rule x step x interpolator x pad width 1..5 x parabolic refinement on/off, "
         "transformed by (dyadic) c = +-2^k, |k|<=8 - asserted bit for bit on every case for get_next_imf and for "
         "sift(c*x, sift_thresh=|c|*t); (real) c real with 1e-3<=|c|<=1e3 and (reverse) x[::-1] - asserted to 1e-6 "
         "relative on the prefix of IMFs whose extraction the reference model shows well conditioned (stop metric > "
@@ -30,7 +30,14 @@ def base_case(draw, max_n=256):
     else:
         opts['max_iters'] = draw(st.integers(1, 20))
     return {'sig': sig, 'opts': opts, 'interp': draw(st.sampled_from(['splrep', 'pchip', 'mono_pchip'])),
-            'pad': draw(st.integers(1, 5))}
+            'pad': draw(st.integers(1, 5)), 'par': draw(st.sampled_from([False, False, False, True]))}
+
+
+def xopts(case):
+    xo = {'pad_width': case['pad']}
+    if case.get('par'):
+        xo['parabolic_extrema'] = True
+    return xo
 
 
 def tiered(fn):
@@ -58,7 +65,7 @@ def real_case(draw, max_n=256):
 def run_imf(emd, x, case, sig):
     try:
         imf, flag = emd.sift.get_next_imf(gens.arg(x)[:, None], envelope_opts={'interp_method': case['interp']},
-                                          extrema_opts={'pad_width': case['pad']}, **case['opts'])
+                                          extrema_opts=xopts(case), **case['opts'])
         return np.asarray(imf)[:, 0], bool(flag)
     except emd.support.EMDSiftCovergeError:
         return None, None
@@ -73,7 +80,7 @@ def run_sift(emd, x, case, thresh, sig):
     try:
         return np.asarray(emd.sift.sift(gens.arg(x), sift_thresh=thresh, max_imfs=cap, imf_opts=dict(case['opts']),
                                         envelope_opts={'interp_method': case['interp']},
-                                        extrema_opts={'pad_width': case['pad']}))
+                                        extrema_opts=xopts(case)))
     except emd.support.EMDSiftCovergeError:
         return None
     except Exception as e:
@@ -129,7 +136,7 @@ def oracle_dyadic(case, rec):
 def compare_prefix(rec, sig, A, B, x, case, transform):
     """A = sift(x); B = transform-corrected sift of the transformed input. Compare the well-conditioned prefix."""
     eo = {'interp_method': case['interp']}
-    xo = {'pad_width': case['pad']}
+    xo = xopts(case)
     good = refmodel.conditioned_layers(x, A, case['opts'], eo, xo)
     rec.cls('conditioned-prefix=%s/%s' % ('all' if good >= min(A.shape[1], 12) else good, 'K'))
     if good == 0:
